@@ -1076,4 +1076,52 @@ theorem Src_validate_host_address (subnets : List Nat) (k : Y) :
         cases decide (b < ((subnets.getD a.toNat 0 : Nat) : Int)) <;> rfl
   | _ => rfl
 
+
+def tyName : Ty → String | .list => "list" | .map => "map" | .number => "number" | .int => "int"
+
+theorem tables_match :
+    SrcLoad.VALID_CONFIG_KEYS = requiredKeys.map (fun p => (p.1, tyName p.2)) ∧
+    SrcLoad.OPTIONAL_CONFIG_KEYS = optionalKeys.map (fun p => (p.1, tyName p.2)) := by decide
+
+theorem lookup_map_snd {β γ : Type} (l : List (String × β)) (f : β → γ) (s : String) :
+    (l.map (fun p => (p.1, f p.2))).lookup s = (l.lookup s).map f := by
+  induction l with
+  | nil => rfl
+  | cons p t ih =>
+    obtain ⟨k, b⟩ := p
+    simp only [List.map_cons, List.lookup_cons]
+    cases s == k <;> simp [ih]
+
+theorem isInstanceOf_tyOk (t : Ty) (v : Y) : PyRt.isInstanceOf v (tyName t) = tyOk t v := by
+  cases t <;> rfl
+
+/-- `_check_scenario_sections_valid`: enough sections, every key known, every value of the section's type -/
+theorem Src_sections (m : List (Y × Y)) :
+    SrcLoad.ScenarioLoader._check_scenario_sections_valid m = sectionsOk m := by
+  unfold SrcLoad.ScenarioLoader._check_scenario_sections_valid sectionsOk
+  have hlen : SrcLoad.VALID_CONFIG_KEYS.length = requiredKeys.length := by decide
+  rw [hlen]
+  by_cases hl : requiredKeys.length ≤ m.length
+  · have : decide (m.length ≥ requiredKeys.length) = true := by simpa using hl
+    simp only [hl, decide_true, Bool.not_true, Bool.false_eq_true, if_false, Bool.true_and]
+    rw [forEach_all' m _ (fun kv => match kv.1 with
+        | .str s => match (requiredKeys ++ optionalKeys).lookup s with
+                    | some t => tyOk t kv.2
+                    | none => false
+        | _ => false) (by
+      intro kv _
+      obtain ⟨k, v⟩ := kv
+      cases k with
+      | str s =>
+        simp only [PyRt.tableHas, PyRt.tableGet, tables_match.1, tables_match.2, lookup_map_snd, List.lookup_append]
+        cases h1 : requiredKeys.lookup s with
+        | some t => simp [isInstanceOf_tyOk]
+        | none =>
+          cases h2 : optionalKeys.lookup s with
+          | some t => simp [isInstanceOf_tyOk]
+          | none => simp
+      | _ => simp [PyRt.tableHas])]
+    cases hall : m.all _ <;> simp_all
+  · have : decide (m.length ≥ requiredKeys.length) = false := by simpa using hl
+    simp [hl]
 end NASim
